@@ -1,7 +1,11 @@
 package props
 
 import (
+	"encoding/json"
 	"fmt"
+	"os"
+	"os/exec"
+	"path/filepath"
 	"reflect"
 	"regexp"
 	"strconv"
@@ -367,4 +371,77 @@ func runC09(c *core.Ctx, r *core.Result) {
 	})
 }
 
-func postC09(tier string, m *core.Result) {}
+// postC09 is engine E7: the repository's own curated formatting corpus
+// (fmttests/testdata/format: every leaf x wrapper pair of the repository's
+// alphabet, local and via network, all verbs, redacted, Sentry report) is
+// re-rendered and compared with its vetted reference renderings. 12 of the
+// 13 files fail in this environment only because Go >= 1.21 names
+// package-level closures init.funcN where the goldens say glob..funcN; the
+// test file is overlaid (not edited) with a copy whose fmtClean normalises
+// that.
+func postC09(tier string, m *core.Result) {
+	src, err := os.ReadFile("/repo/fmttests/format_error_test.go")
+	if err != nil {
+		m.HarnessError("E7: %v", err)
+		return
+	}
+	anchor := "\tspv = funcNN.ReplaceAllString(spv, `...funcNN...`)\n"
+	if !strings.Contains(string(src), anchor) {
+		m.Uncovered = append(m.Uncovered, "E7 corpus: fmtClean anchor not found in fmttests/format_error_test.go")
+		return
+	}
+	patched := strings.Replace(string(src), anchor, anchor+
+		"\tspv = regexp.MustCompile(`(?m)fmttests\\.init\\.func\\d+(\\.\\d+)*(\"?)$`).ReplaceAllString(spv, `fmttests.glob...funcNN...$2`)\n"+
+		"\tspv = strings.ReplaceAll(spv, `fmttests.init)...funcNN...`, `fmttests.glob.)...funcNN...`)\n"+
+		"\tspv = regexp.MustCompile(`fmttests\\.init\\.func\\d+\\\\n`).ReplaceAllString(spv, `fmttests.glob...funcNN...`)\n"+
+		"\tspv = regexp.MustCompile(`fmttests\\.init\\.func(\\d+)›`).ReplaceAllString(spv, `fmttests.glob..func$1›`)\n", 1)
+	dir := filepath.Join(core.VerifDir, "build", "e7")
+	os.MkdirAll(dir, 0o755)
+	pf := filepath.Join(dir, "format_error_test.go")
+	if err := os.WriteFile(pf, []byte(patched), 0o644); err != nil {
+		m.HarnessError("E7: %v", err)
+		return
+	}
+	ov := filepath.Join(dir, "overlay.json")
+	os.WriteFile(ov, []byte(fmt.Sprintf(`{"Replace": {"/repo/fmttests/format_error_test.go": %q}}`, pf)), 0o644)
+	cmd := exec.Command("go", "test", "-vet=off", "-count=1", "-json", "-overlay", ov, "./fmttests", "-run", "TestDatadriven")
+	cmd.Dir = "/repo"
+	out, _ := cmd.Output()
+	type ev struct{ Action, Test, Output string }
+	status := map[string]string{}
+	outputs := map[string][]string{}
+	for _, ln := range strings.Split(string(out), "\n") {
+		var e ev
+		if json.Unmarshal([]byte(ln), &e) != nil || e.Test == "" {
+			continue
+		}
+		if e.Action == "pass" || e.Action == "fail" {
+			status[e.Test] = e.Action
+		}
+		if e.Action == "output" {
+			outputs[e.Test] = append(outputs[e.Test], e.Output)
+		}
+	}
+	files, _ := filepath.Glob("/repo/fmttests/testdata/format/*")
+	if len(status) == 0 {
+		m.HarnessError("E7: the corpus test did not run (build failure?): %s", short(string(out)))
+		return
+	}
+	for _, f := range files {
+		name := "TestDatadriven/" + filepath.Base(f)
+		b, _ := os.ReadFile(f)
+		cases := int64(strings.Count("\n"+string(b), "\nrun\n"))
+		m.States += cases
+		m.Transitions += cases
+		m.Nontrivial += cases
+		m.Count("corpus_cases", cases)
+		switch status[name] {
+		case "pass":
+			m.Outcome("corpus:" + filepath.Base(f) + ":pass")
+		case "fail":
+			m.Violate("corpus|"+filepath.Base(f), "the vetted reference renderings of "+f+" are not reproduced:\n"+short(strings.Join(outputs[name], "")), map[string]interface{}{"corpus_file": f})
+		default:
+			m.HarnessError("E7: no result for %s", name)
+		}
+	}
+}
